@@ -111,6 +111,13 @@ def fam_reports(tier, seed):
     # ... and the same with an objective that pushes the tasks to the right
     b.obj("ObjectiveTasksStartLatest", ind=b.ind("MinimumStartTime", name="MinimumStartTime", tasks=[a, c]), kind="maximize")
     ps.append(dict(b.done(), keep=True))
+    # a milestone (zero-length task) that comes last, no user horizon, makespan minimised: the reported horizon covers it
+    b = PB(5, user_horizon=False, tag="report-milestone-last")
+    a = b.task("A", "F", dur=2)
+    c = b.task("B", "Z")
+    b.con("TaskPrecedence", before=a, after=c, offset=1, kind="lax")
+    b.obj("ObjectiveMinimizeMakespan")
+    ps.append(dict(b.done(), keep=True))
     # a cumulative worker of size 10, all its units in use (two-digit unit numbers in the generated names)
     b = PB(1, tag="report-cumulative-size-10")
     cu = b.cumul("M", 10)
@@ -123,5 +130,5 @@ def fam_reports(tier, seed):
     q["default_only"] = True
     ps.append(q)
     if not full:
-        ps = sample(rng, ps, 22)
+        ps = sample(rng, ps, 23)
     return number(ps)
